@@ -21,6 +21,48 @@ pub const BIG: u64 = 2147483647;
 
 thread_local! {
   pub static LAST_PANIC: RefCell<String> = const { RefCell::new(String::new()) };
+  /// site -> (times reached, times the precondition was false), since the
+  /// last drain
+  pub static PROBES: RefCell<std::collections::BTreeMap<&'static str, (u64, u64)>> =
+    const { RefCell::new(std::collections::BTreeMap::new()) };
+}
+
+/// what the precondition probes (feature `verif` of the crate) saw since the
+/// last call
+pub fn drain_probes() -> Value {
+  PROBES.with(|p| {
+    let mut p = p.borrow_mut();
+    let sites: Vec<Value> = p.iter().map(|(k, v)| json!([k, v.0])).collect();
+    let failed: Vec<Value> = p.iter().filter(|(_, v)| v.1 > 0).map(|(k, _)| json!(k)).collect();
+    p.clear();
+    json!({"sites": sites, "failed": failed})
+  })
+}
+
+/// The observer the harness installs into the crate's hooks.
+pub struct HarnessObserver;
+
+impl rspack_sources::verif::Observer for HarnessObserver {
+  fn point(&self, id: &'static str, obj: usize, arg: usize) {
+    crate::sched::on_point(id, obj, arg);
+  }
+  fn probe(&self, site: &'static str, ok: bool) {
+    PROBES.with(|p| {
+      let mut p = p.borrow_mut();
+      let e = p.entry(site).or_insert((0, 0));
+      e.0 += 1;
+      if !ok {
+        e.1 += 1;
+        // the unsafe operation that follows may take the process down:
+        // leave a note that survives it
+        if let Ok(path) = std::env::var("RSV_SIDE") {
+          if let Ok(mut f) = std::fs::OpenOptions::new().create(true).append(true).open(path) {
+            let _ = writeln!(f, "{}", site);
+          }
+        }
+      }
+    });
+  }
 }
 
 fn num(n: u64, big: &mut bool) -> Value {
@@ -572,10 +614,12 @@ impl Machine {
 
   /// Runs one step; a panic inside the crate is data, not an error.
   pub fn step(&mut self, pid: u64, step: &Value) -> Value {
+    let _ = drain_probes();
     let res = catch_unwind(AssertUnwindSafe(|| self.run(step)));
     let mut rec = step.clone();
     let obj = rec.as_object_mut().unwrap();
     obj.insert("pid".into(), json!(pid));
+    obj.insert("probes".into(), drain_probes());
     match res {
       Ok(out) => {
         obj.insert("oc".into(), json!("ok"));
